@@ -578,8 +578,16 @@ func (w *world) snapshot() *snap {
 		}
 	}
 	for _, x := range w.clients {
-		if cc := w.sm.GetControlConnectionByClientID(int64(x)); cc != nil {
+		cc := w.sm.GetControlConnectionByClientID(int64(x))
+		if cc != nil {
 			s.idx[x] = cc
+		}
+		// "returns nothing" must mean == nil through every accessor, also the interface-typed one (no typed nil)
+		iface := w.sm.GetControlConnectionInterface(int64(x))
+		if (iface == nil) != (cc == nil) {
+			s.bad = append(s.bad, fmt.Sprintf("GetControlConnectionInterface(%d) == nil is %v but GetControlConnectionByClientID(%d) == nil is %v (typed nil: callers' offline test fails)", x, iface == nil, x, cc == nil))
+		} else if iface != nil && iface.GetConnID() != cc.ConnID {
+			s.bad = append(s.bad, fmt.Sprintf("GetControlConnectionInterface(%d) returns %s, GetControlConnectionByClientID returns %s", x, iface.GetConnID(), cc.ConnID))
 		}
 	}
 	for _, t := range w.tunnels {
@@ -699,7 +707,11 @@ func (w *world) apply(o []int) (int, int) {
 		if ctl == 0 {
 			ct = "tunnel"
 		}
-		payload, _ := json.Marshal(&packet.HandshakeRequest{ClientID: int64(x), Version: "V3", Protocol: "tcp", ConnectionType: ct})
+		reqID := int64(x)
+		if ctl == 2 {
+			reqID = 0 // first-time / anonymous registration: the request carries client_id 0, the auth handler ALLOCATES id x
+		}
+		payload, _ := json.Marshal(&packet.HandshakeRequest{ClientID: reqID, Version: "V3", Protocol: "tcp", ConnectionType: ct})
 		err := sm.HandlePacket(&types.StreamPacket{ConnectionID: id, Timestamp: time.Now(),
 			Packet: &packet.TransferPacket{PacketType: packet.Handshake, Payload: payload}})
 		return b2i(err != nil), 0
